@@ -232,7 +232,7 @@ void RunOne(const json &job) {
     std::vector<std::string> script = job.at("script").get<std::vector<std::string>>();
     int passes = job.value("passes", int(script.size()) + 6);
 
-    vh::T().line("{\"e\":\"Reset\",\"prog\":" + prog.dump() + "}");
+    vh::T().line("{\"e\":\"Prog\",\"prog\":" + prog.dump() + "}");
     g_ev.clear();
 
     event::Loop *loop = event::Loop::New();
@@ -285,6 +285,7 @@ void RunOne(const json &job) {
     delete t.root;
     delete loop;
     g_ev.clear();
+    vh::T().line("{\"e\":\"Reset\"}");      // end of this execution
 }
 
 }  // namespace
